@@ -59,10 +59,10 @@ CHECKS = {
                   'invariance hold for every byte string within the bound; gzip is chosen iff the header is 1f 8b regardless of the name.',
              note='Trusted: as C01; open/gzip/TextIOWrapper replaced by tagging stubs in the K part; in the X part only `open` is replaced (in-memory files).  File-level claims are bounded-exhaustive over pools of genomes and forms.',
              ref='3/C06'),
- 'C02': dict(engine='KX', technique='bounded model checking: metric.pyx + gambit.metric translated to SMT (QF_BV merge stage per dtype pair and length bound, QF_FP float stage over all N,M,u < 2^24), z3 + cvc5; plus one CrossHair/z3-enumerated pool condition running the real functions on strongly unbalanced array pairs beyond the symbolic length bound',
+ 'C02': dict(engine='KX', technique='bounded model checking: metric.pyx + gambit.metric translated to SMT (QF_BV merge stage per dtype pair and length bound, QF_FP float stage over all N,M,u < 2^24), z3 + cvc5; plus two CrossHair/z3-enumerated pool conditions running the real functions: strongly unbalanced array pairs beyond the symbolic length bound, and call histories on buffers refilled in place (context-freeness)',
              text='For every pair of sorted duplicate-free arrays up to the length bound, in every accepted dtype pair, the merge loop of the current '
                   'metric.pyx ends with (N,M,u) = (|a|,|b|,|a or b|) with all reads in bounds; for every such triple below 2^24 the returned float32 '
-                  'is bit-identical to the exact quotient rounded once (jaccard() = 1 - that); every early return of the Python layer must return the same value.  Pooled: 0-2 against 17 / 40 / 100 elements, all 36 dtype pairs, values at the top of the common range and around 2^53.  Counterexamples are replayed on the real kernel.',
+                  'is bit-identical to the exact quotient rounded once (jaccard() = 1 - that); every early return of the Python layer must return the same value.  Pooled: 0-2 against 17 / 40 / 100 elements, all 36 dtype pairs, values at the top of the common range and around 2^53; histories of five in-place refills of two buffers, either function first.  Counterexamples are replayed on the real kernel.',
              note='Trusted: z3/cvc5, kbmc translator and C typing rules (validated against the compiled module), the assume-guarantee cut after the merge loop, specs/jaccard_spec.py.',
              ref='3/C02'),
  'C14': dict(engine='X', technique='CrossHair/z3-driven exhaustive case split over the option and parameter space of the real click callbacks (dist, query, signatures create, tree) with recording stubs; end-to-end CLI replay',
@@ -82,7 +82,7 @@ CHECKS = {
              ref='3/C07'),
  'C16': dict(engine='X', technique='CrossHair/z3-driven exhaustive case split over the 3 x 5 source configurations, sizes and genome choices of the real dist callback (real distance kernels, real dump_dmat_csv / load_dmat_csv on an in-memory file)',
              text='For every way of supplying queries and references, every size within the bound and every choice and order of genomes from the pool, the written CSV has the reference labels as header, '
-                  'one row per query label, and each cell equals the two-signature distance formatted to four decimals; --square gives the symmetric zero-diagonal matrix of the queries.',
+                  'one row per query label, and each cell equals the two-signature distance formatted to four decimals (labels with commas and double quotes included, read back with the stdlib csv module); --square gives the symmetric zero-diagonal matrix of the queries.',
              note='Trusted: CrossHair path exhaustion; file-reading stubs returning real signature collections; the two-signature distance itself is C02.',
              ref='3/C16'),
  'C17': dict(engine='X', technique='CrossHair/z3-driven exhaustive case split: linkage_to_bio_tree on every contract-satisfying linkage matrix (symbolic merge order and height order type); the real tree command end to end on pool genomes with an all-tie-breaks UPGMA oracle',
@@ -102,10 +102,10 @@ CHECKS = {
              note='Bounded exploration over finite pools, not a proof; h5py / libhdf5 are executed, not encoded.  szip and files that merely start with the HDF5 magic number are outside.',
              ref='3/C12'),
  'C18': dict(engine='X', category='exploration', technique='CrossHair/z3-driven exhaustive case split over bounded histories (way of opening the database x sequence of operations); every history runs natively on a private copy of the real SQLite + HDF5 files',
-             text='For every history of 2 (quick) / 3 (thorough) operations out of 12 kinds (query, distance matrix + tree, signature inspection, failing calls, reopen, rollback, ORM add / edit / delete followed by flush or by an '
-                  'autoflushing query, commit), with the database opened by the library or by the CLI context, both files are byte-identical (sha256) after every step and after closing, no data-modifying SQL statement '
+             text='For every history of 2 (quick) / 3 (thorough) operations out of 13 kinds (query, distance matrix + tree, signature inspection, failing calls, reopen, rollback, ORM add / edit / delete followed by flush or by an '
+                  'autoflushing query, commit, a bulk UPDATE sent past the unit of work and never committed), with the database opened by the library or by the CLI context, both files are byte-identical (sha256) after every step and after closing, no data-modifying SQL statement '
                   'reaches the engine, and commit() is refused.',
-             note='Bounded exploration, not a proof: the solver only enumerates the histories; what SQLite / libhdf5 do below the file API is executed, not encoded.  Longer histories, raw SQL and crashes are outside.',
+             note='Bounded exploration, not a proof: the solver only enumerates the histories; what SQLite / libhdf5 do below the file API is executed, not encoded.  Longer histories, raw SQL the user commits himself and crashes are outside.',
              ref='3/C18'),
 }
 
